@@ -492,3 +492,43 @@ package updown
 //@   before send#2: assert [c08.fanout.count] forall(k, 0, nQ, len(sent(QChanArray[k])) == count(t, 0, len(recv(cIn)), recv(cIn)[t].ambCount <= threshtarg))
 //@   before send#2: assert [c08.fanout.order] forall(k, 0, nQ, forall(t, 0, len(recv(cIn)), implies(recv(cIn)[t].ambCount <= threshtarg, sent(QChanArray[k])[count(u, 0, t, recv(cIn)[u].ambCount <= threshtarg)] == recv(cIn)[t])))
 //@   ensures [done.once] len(sent(cSplitDone)) == 1 && len(sent(cErr)) == 0
+
+//@ # C09/C18 (spawns mode; model and assumptions: see closest.Closest): the FASTA route of `updown topranking`. Reader, the
+//@ # single conversion worker (queries) resp. the NumCPU workers plus the re-ordering stage (targets) are started on the
+//@ # right channels with the reference given and soft gaps; an error from any of them is returned / forwarded on cErr with
+//@ # the done signal withheld; success means every completion signal was received.
+//@ func fastaToUDLList spawns
+//@   modifies everything
+//@   after assign:cArrayDone#1: assume [env.errors] forallint(k, envat(cInternalErr, k) != nil)
+//@   ghost gErrSeen bool = false
+//@   before call:ReadEncodeAlignment#1: assert [c09.reader] arg(0) == in && arg(1) == false && arg(2) == cFR && arg(3) == cInternalErr && arg(4) == cFRDone
+//@   before call:getLines#1: assert [c09.worker] sameslice(arg(0), refSeq) && arg(1) == cFR && arg(2) == cudLs && arg(3) == cInternalErr
+//@   loop 1:
+//@     invariant !gErrSeen && len(recvd(cInternalErr)) == 0 && 0 <= n && n <= 1 && len(recvd(cFRDone)) + n == 1 && len(recvd(cudLsDone)) == 0 && len(recvd(cArrayDone)) == 0
+//@   loop 2:
+//@     invariant !gErrSeen && len(recvd(cInternalErr)) == 0 && len(recvd(cFRDone)) == 1 && 0 <= n && n <= 1 && len(recvd(cudLsDone)) + n == 1 && len(recvd(cArrayDone)) == 0
+//@   loop 3:
+//@     invariant !gErrSeen && len(recvd(cInternalErr)) == 0 && len(recvd(cFRDone)) == 1 && len(recvd(cudLsDone)) == 1 && 0 <= n && n <= 1 && len(recvd(cArrayDone)) + n == 1
+//@   before return#1: do gErrSeen = true
+//@   before return#2: do gErrSeen = true
+//@   before return#1: assert [c18.error.first] len(recvd(cInternalErr)) == 1 && err == recvd(cInternalErr)[0]
+//@   before return#2: assert [c18.error.first] len(recvd(cInternalErr)) == 1 && err == recvd(cInternalErr)[0]
+//@   before return#3: assert [c18.nil.means.clean] len(recvd(cInternalErr)) == 0 && len(recvd(cFRDone)) == 1 && len(recvd(cudLsDone)) == 1 && len(recvd(cArrayDone)) == 1
+//@   ensures [local.c18.error.returned] implies(gErrSeen, result2 != nil)
+
+//@ func readFastaToUDLChan spawns
+//@   modifies everything
+//@   after assign:cudLsDone#1: assume [env.errors] forallint(k, envat(cInternalErr, k) != nil)
+//@   before call:ReadEncodeAlignment#1: assert [c09.reader] arg(0) == target && arg(1) == false && arg(2) == cFR && arg(3) == cInternalErr && arg(4) == cFRDone
+//@   before call:getLines#1: assert [c09.worker] sameslice(arg(0), refSeq) && arg(1) == cFR && arg(2) == cReOrder && arg(3) == cInternalErr
+//@   before call:reorderRecords#1: assert [c09.reorder] arg(0) == cReOrder && arg(1) == cudL && arg(2) == cReOrderDone
+//@   loop 1:
+//@     invariant len(sent(cErr)) == 0 && len(sent(cReadDone)) == 0 && len(recvd(cInternalErr)) == 0 && len(recvd(cFRDone)) == 0 && len(recvd(cudLsDone)) == 0 && len(recvd(cReOrderDone)) == 0
+//@   loop 2:
+//@     invariant len(sent(cErr)) == 0 && len(sent(cReadDone)) == 0 && len(recvd(cInternalErr)) == 0 && 0 <= n && n <= 1 && len(recvd(cFRDone)) + n == 1 && len(recvd(cudLsDone)) == 0 && len(recvd(cReOrderDone)) == 0
+//@   loop 3:
+//@     invariant len(sent(cErr)) == 0 && len(sent(cReadDone)) == 0 && len(recvd(cInternalErr)) == 0 && len(recvd(cFRDone)) == 1 && 0 <= n && n <= 1 && len(recvd(cudLsDone)) + n == 1 && len(recvd(cReOrderDone)) == 0
+//@   loop 4:
+//@     invariant len(sent(cErr)) == 0 && len(recvd(cInternalErr)) == 0 && len(recvd(cFRDone)) == 1 && len(recvd(cudLsDone)) == 1 && 0 <= n && n <= 1 && len(recvd(cReOrderDone)) + n == 1 && len(sent(cReadDone)) + n == 1
+//@   ensures [c18.exclusive] len(sent(cErr)) + len(sent(cReadDone)) == 1
+//@   ensures [c18.error.forwarded] implies(len(sent(cErr)) == 1, sent(cErr)[0] != nil)
